@@ -165,6 +165,9 @@ Dispatch(m, svc, segs, data, cap, choice, kind, viaUcs, routeSegs) ==
         IF m.call.api = "get_module_info" /\ Has(m.call.intent, "slot")
            /\ (~viaUcs \/ ~SegsEq(routeSegs, (IF m.route = <<>> THEN <<>> ELSE SubSeq(m.route, 1, Len(m.route) - 1)) \o <<Port(1, <<m.call.intent.slot>>)>>))
         THEN ObjR("C16:module-route+C14:module-route+C15:module-route+C09:route-meaning", <<>>, m)
+        \* get_plc_info(): through the configured route (an Unconnected Send), whatever was asked before
+        ELSE IF m.call.api = "get_plc_info" /\ viaUcs /\ ~SegsEq(routeSegs, m.route)
+        THEN ObjR("C16:info-route+C14:route+C15:route-in-message+C09:route-meaning", <<>>, m)
         ELSE ObjR("", MRReply(svc, 0, <<>>, IdentityCore(m.ident)), [m1 EXCEPT !.last = [k |-> "identity"]])
     ELSE IF cls = 139 /\ inst = 1 /\ svc = 3 /\ m.hasclock THEN
         ObjR("", MRReply(svc, 0, <<>>, LE(1, 2) \o LE(11, 2) \o LE(0, 2) \o m.clock), [m1 EXCEPT !.last = [k |-> "clock"]])
